@@ -226,7 +226,7 @@ def stepLine (st : State) (toks : List String) : State × String :=
   | ["rp.cfg", mem, ep, b, f] =>
     match b.toNat?, f.toNat? with
     | some b, some f =>
-      if (mem ≠ "8" ∧ mem ≠ "16") ∨ (ep ≠ "serial" ∧ ep ≠ "tcp") ∨ b ≤ f then (st, "bad-op") else
+      if (mem ≠ "8" ∧ mem ≠ "16") ∨ (ep ≠ "serial" ∧ ep ≠ "tcp") ∨ b = 0 then (st, "bad-op") else
       ({ p := { cfg := { mem16 := mem == "16", serial := ep == "serial", B := b, F := f },
                 snk := { room := 1000000 } }, ready := true }, s!"ok F={f}")
     | _, _ => (st, "bad-op")
